@@ -73,10 +73,18 @@ def client_negotiation_stims(seed, tier):
                         continue
                     shape = rnd.choice(['unary', 'cstream', 'sstream', 'bidi'])
                     rnd.shuffle(ca)
+                    # a third of the calls with a non-empty accept set are made with request metadata that already carries a
+                    # grpc-accept-encoding entry (a proxy handing the incoming call's metadata on): what the client advertises is still
+                    # what it was configured to accept.  (With an empty accept set the sentences of C05 and C08 pull in opposite
+                    # directions - "advertises exactly" against "every entry reaches the peer" - and nothing is judged.)
+                    meta = []
+                    if ca and len(out) % 3 == 0:
+                        other = [e for e in encs if e not in ca] + ['identity']
+                        meta = [{'n': 'grpc-accept-encoding', 'bin': False, 'v': list(','.join(other if len(out) % 2 else encs + ['identity']).encode())}]
                     out.append({'mode': 'client', 'class': 'client_negotiation', 'transport': 'inproc', 'shim': {'cap': 0, 'rq': 0, 'wq': 0, 'pend': 0}, 'shape': shape,
                                 'server': {'send': ss, 'accept': sa, 'max_dec': -1, 'max_enc': -1},
                                 'client': {'send': cs, 'accept': list(ca), 'max_dec': -1, 'max_enc': -1, 'clone': rnd.random() < 0.4},
-                                'req': {'meta': [], 'msgs': [[5] * 50] if shape in ('unary', 'sstream') else [[5] * 50, [], [1]]},
+                                'req': {'meta': meta, 'msgs': [[5] * 50] if shape in ('unary', 'sstream') else [[5] * 50, [], [1]]},
                                 'script': {'init_meta': [], 'msgs': [[9] * 60] if shape in ('unary', 'cstream') else [[9] * 60, [8]],
                                            'end': {'ok': True}, 'fail_before': False, 'no_compress': rnd.random() < 0.2}})
     return out
@@ -160,6 +168,58 @@ def mock_table_stims(seed, tier, mc):
                     'server': {'send': [], 'accept': [], 'max_dec': -1, 'max_enc': -1}, 'client': {'send': '', 'accept': [], 'max_dec': -1, 'max_enc': -1},
                     'req': {'meta': [], 'msgs': [[1]]}, 'script': {'init_meta': [], 'msgs': [], 'end': {'ok': True}, 'fail_before': False, 'no_compress': False},
                     'mock': {'status': r['http'], 'headers': headers, 'body_chunks': frames, 'has_trailers': has_tr, 'trailers': trailers, 'first_flagged': False}})
+    return out
+
+
+def mock_metadata_stims(seed, tier):
+    """canned responses of a peer that attaches custom metadata to the response headers and to the trailers (C08: "in responses,
+    trailers or error statuses"): single and repeated entries, ASCII and binary (padded or not), on unary and streaming calls that
+    succeed, fail with a status in the trailers, or fail on the client (a message over its decoding limit)."""
+    import base64, struct
+    def wire(entries, pad):
+        out = []
+        for e in entries:
+            v = bytes(e['v'])
+            if e['bin']:
+                v = base64.b64encode(v)
+                if not pad:
+                    v = v.rstrip(b'=')
+            out.append({'n': e['n'], 'v': list(v)})
+        return out
+    def a(n, v): return {'n': n, 'bin': False, 'v': list(v.encode())}
+    def b(n, v): return {'n': n, 'bin': True, 'v': list(v)}
+    patterns = [
+        ([a('x-h', 'one')], [a('x-t', 'last')]),
+        ([a('x-multi', 'first'), a('x-multi', 'second'), a('x-multi', 'third')], [a('x-tm', 't1'), a('x-tm', 't2')]),
+        ([b('x-hb-bin', b'\x00\x01'), b('x-hb-bin', b''), b('x-hb-bin', b'\xff\xfe\xfd\xfc')], [b('x-tb-bin', b'a'), b('x-tb-bin', b'ab'), b('x-tb-bin', b'abc')]),
+        ([a('x-mix', 'p'), b('x-mix-bin', b'q'), a('x-mix', 'r')], [a('x-tm', 'same'), a('x-tm', 'same'), b('x-tb-bin', b'\x80')]),
+        ([], [a('x-tm', 'u'), a('x-other', 'v'), a('x-tm', 'w')]),
+        ([a('x-multi', 'a'), a('x-multi', 'b')], []),
+    ]
+    out = []
+    for shape in ('unary', 'sstream'):
+        for hmeta, tmeta in patterns:
+            for ts in (0, 5):
+                for pad in (True, False):
+                    for oversize in (False, True):
+                        if oversize and ts:
+                            continue
+                        payload = [7] * (200 if oversize else 2)
+                        frames = [[0] + list(struct.pack('>I', len(payload))) + payload]
+                        if shape == 'sstream' and not oversize:
+                            frames.append([0, 0, 0, 0, 1, 9])
+                        if ts and shape == 'unary':
+                            frames = []
+                        headers = [{'n': 'content-type', 'v': list(b'application/grpc')}] + wire(hmeta, pad)
+                        trailers = [{'n': 'grpc-status', 'v': list(str(ts).encode())}] + wire(tmeta, pad)
+                        if ts:
+                            trailers.insert(1, {'n': 'grpc-message', 'v': list(b'from trailers')})
+                        out.append({'mode': 'mock', 'class': 'mock_metadata', 'transport': 'mock', 'shim': {'cap': 0, 'rq': 0, 'wq': 0, 'pend': 0}, 'shape': shape,
+                                    'server': {'send': [], 'accept': [], 'max_dec': -1, 'max_enc': -1},
+                                    'client': {'send': '', 'accept': [], 'max_dec': 64 if oversize else -1, 'max_enc': -1},
+                                    'req': {'meta': [], 'msgs': [[1]]}, 'script': {'init_meta': [], 'msgs': [], 'end': {'ok': True}, 'fail_before': False, 'no_compress': False},
+                                    'mock': {'status': 200, 'headers': headers, 'body_chunks': frames, 'has_trailers': True, 'trailers': trailers, 'first_flagged': False,
+                                             'hmeta': hmeta, 'tmeta': tmeta}})
     return out
 
 
@@ -262,6 +322,50 @@ def long_stream_stims(seed, tier):
     return out
 
 
+def wire_stims(seed, tier):
+    """mode "wire": a bare h2 client against the complete transport server.  Grid: shape x who produces the response - the handler
+    (success, every error code), a user layer failing with a Status (every code, directly or down its source chain), the server's
+    timeout, the request's own grpc-timeout, both - with the handler slower or faster than the deadline by a wide margin."""
+    stims = []
+    def add(cls, shape, server, script, expires, extra_headers=()):
+        headers = [{'n': 'content-type', 'v': list(b'application/grpc')}, {'n': 'te', 'v': list(b'trailers')}] + list(extra_headers)
+        sv = {'send': [], 'accept': [], 'max_dec': -1, 'max_enc': -1, 'fail_code': -1, 'fail_how': 'direct'}
+        sv.update(server)
+        sc = {'init_meta': [], 'msgs': [[9] * 40] if shape == 'unary' else [[9] * 40, [], [7]], 'end': {'ok': True}, 'fail_before': False, 'no_compress': False}
+        sc.update(script)
+        stims.append({'mode': 'wire', 'class': 'wire_' + cls, 'transport': 'h2', 'shape': shape, 'server': sv,
+                      'client': {'send': '', 'accept': [], 'max_dec': -1, 'max_enc': -1}, 'req': {'meta': [], 'msgs': [[1, 2, 3]]}, 'script': sc,
+                      'raw': {'uri': '/p.q.Svc/Unary' if shape == 'unary' else '/p.q.Svc/SStream', 'headers': headers, 'msg': [1, 2, 3]},
+                      'wire': {'expires': expires}})
+    def hdr(v):
+        return [{'n': 'grpc-timeout', 'v': list(v.encode())}]
+    for shape in ('unary', 'sstream'):
+        add('served', shape, {}, {}, False)
+        add('served', shape, {'timeout_ms': 500}, {'latency_ms': 20}, False)
+        add('served', shape, {}, {'latency_ms': 20}, False, hdr('500m'))
+        for code in range(1, 17):
+            end = {'ok': False, 'code': code, 'msg': list(b'boom') if code % 2 else [], 'details': [9, 9] if code % 3 == 0 else [], 'meta': []}
+            add('handler_error', shape, {}, {'end': end, 'fail_before': code % 2 == 0, 'msgs': [[9] * 40] if shape == 'unary' else [[5]]}, False)
+            for how in ('direct', 'source', 'source2'):
+                if tier != 'thorough' and how != 'direct' and code % 4:
+                    continue
+                add('layer_failure', shape, {'fail_code': code, 'fail_how': how}, {}, False)
+        add('layer_failure', shape, {'fail_code': 0}, {}, False)
+        add('server_timeout', shape, {'timeout_ms': 50}, {'latency_ms': 200}, True)
+        add('server_timeout', shape, {'timeout_us': 300}, {'latency_ms': 2}, True)
+        add('request_timeout', shape, {}, {'latency_ms': 200}, True, hdr('50m'))
+        add('request_timeout', shape, {}, {'latency_ms': 3000}, True, hdr('1S'))
+        add('request_timeout', shape, {}, {'latency_ms': 20}, True, hdr('0n'))
+        add('both_timeouts', shape, {'timeout_ms': 50}, {'latency_ms': 200}, True, hdr('10S'))
+        add('both_timeouts', shape, {'timeout_ms': 5000}, {'latency_ms': 200}, True, hdr('50m'))
+        add('both_timeouts', shape, {'timeout_ms': 5000}, {'latency_ms': 20}, False, hdr('500m'))
+        # a failing handler behind a deadline that does not expire, and a layer failure with a deadline configured
+        add('handler_error', shape, {'timeout_ms': 500}, {'latency_ms': 20, 'end': {'ok': False, 'code': 9, 'msg': [], 'details': [], 'meta': []}, 'fail_before': True,
+                                                           'msgs': [[9] * 40] if shape == 'unary' else []}, False)
+        add('layer_failure', shape, {'fail_code': 8, 'timeout_ms': 50}, {}, False, hdr('50m'))
+    return stims
+
+
 def check(prop, tier, seed):
     t0 = time.time()
     core.build_harness()
@@ -275,10 +379,12 @@ def check(prop, tier, seed):
         fams.append(('negotiation_table', negotiation_stims(seed, tier, mc)))
         fams.append(('client_negotiation', client_negotiation_stims(seed, tier)))
     if prop == 'C02':
+        fams.append(('wire_responses', wire_stims(seed, tier)))
         fams.append(('response_table', mock_table_stims(seed, tier, mc)))
         fams.append(('compressed_limits', compressed_limit_stims(seed, tier)))
         fams.append(('long_streams', long_stream_stims(seed, tier)))
     if prop == 'C08':
+        fams.append(('mock_metadata', mock_metadata_stims(seed, tier)))
         fams.append(('calls2', simple.gen('call', seed + 77, tier, tag)))
     if prop == 'C06':
         fams = [('call_limits', limit_stims(seed, tier)), ('compressed_limits', compressed_limit_stims(seed, tier))]
